@@ -54,6 +54,30 @@ def do_compile_file(path, opts):
         return {'r': 'escaped', 'type': type(e).__name__, 'msg': str(e)[:500]}
 
 
+def do_compile_threads(texts, nthreads, opts):
+    """compile the texts concurrently in threads of THIS process (each text once per thread)"""
+    import threading
+    results = [[None] * len(texts) for _ in range(nthreads)]
+
+    def work(k):
+        order = list(range(len(texts)))
+        if k % 2:
+            order.reverse()
+        for i in order:
+            try:
+                results[k][i] = {'r': 'ok', 'css': lesscpy.compile(io.StringIO(texts[i]), **opts)}
+            except SyntaxError as e:
+                results[k][i] = {'r': 'error', 'cls': type(e).__name__, 'msg': str(e)[:300]}
+            except BaseException as e:      # noqa
+                results[k][i] = {'r': 'escaped', 'type': type(e).__name__, 'msg': str(e)[:300]}
+    ths = [threading.Thread(target=work, args=(k,)) for k in range(nthreads)]
+    for th in ths:
+        th.start()
+    for th in ths:
+        th.join()
+    return {'r': 'threads', 'results': results}
+
+
 def do_tokens(text, filtered):
     try:
         lx = _lexer.LessLexer()
@@ -161,6 +185,8 @@ def main():
                 ans = do_compile(req['text'], req.get('opts', {}))
             elif k == 'compile_many':
                 ans = {'r': 'many', 'results': [do_compile(t, req.get('opts', {})) for t in req['texts']]}
+            elif k == 'compile_threads':
+                ans = do_compile_threads(req['texts'], req.get('nthreads', 4), req.get('opts', {}))
             elif k == 'compile_file':
                 ans = do_compile_file(req['path'], req.get('opts', {}))
             elif k == 'tokens':
